@@ -77,6 +77,7 @@ class World:
         self.removed_descr = {}   # handle -> (descriptor copy, state copy or None) for re-creation
         self.new_n = 0
         self.late_writes = False  # C03: after the `with` block write into everything that was handed out
+        self.scribble_results = True
         self.retained = []        # C03: (label, object, canonical value when it was published)
 
     def close(self):
@@ -423,8 +424,9 @@ class World:
                 info.setdefault('isolation_failures', []).append(
                     ('published-result-changed-by-handed-out-object', f'{label} {getattr(obj, "DescriptorHandle", "")}'))
         # and now scribble over the result objects as well (a second observer would see them; the MDIB must not)
-        for st in published:
-            deep_scribble(st)
+        if self.scribble_results:
+            for st in published:
+                deep_scribble(st)
 
     @staticmethod
     def _n_items(mgr):
